@@ -328,7 +328,11 @@ func c04Storm(a []string) string {
 			defer wg.Done()
 			<-start
 			for k := 0; k < K; k++ {
-				arg := fmt.Sprintf("g%d-k%d-%s", g, k, strings.Repeat("x", (g+k)%7))
+				pad := (g + k) % 7
+				if (g+k)%3 == 0 { // arguments and results of several kilobytes: frames that do not fit one small write
+					pad = 4100 + (g*31+k*17)%26000
+				}
+				arg := fmt.Sprintf("g%d-k%d-%s", g, k, strings.Repeat("x", pad))
 				got, err := proxies[g].Hello(arg)
 				emu.Lock()
 				total++
